@@ -9,7 +9,7 @@ open Hms.Core Hms.Core.Comp Hms.Core.VM
 /-! ## The heap invariant under allocation and update -/
 
 theorem HeapInv.push {h : Array Cell} (hi : HeapInv h) (c : Cell)
-    (hc : ∀ fs, c = .obj fs → fs.lookup "len" = none ∧ fs.lookup "push" = none) : HeapInv (h.push c) := by
+    (hc : ∀ fs, c = .obj fs → ∀ k ∈ methNames, fs.lookup k = none) : HeapInv (h.push c) := by
   intro a fs ha
   rw [Array.getElem?_push] at ha
   split at ha
@@ -17,7 +17,7 @@ theorem HeapInv.push {h : Array Cell} (hi : HeapInv h) (c : Cell)
   · exact hi a fs ha
 
 theorem HeapInv.set {h : Array Cell} (hi : HeapInv h) (a : Nat) (c : Cell)
-    (hc : ∀ fs, c = .obj fs → fs.lookup "len" = none ∧ fs.lookup "push" = none) : HeapInv (h.setIfInBounds a c) := by
+    (hc : ∀ fs, c = .obj fs → ∀ k ∈ methNames, fs.lookup k = none) : HeapInv (h.setIfInBounds a c) := by
   intro b fs hb
   rw [Array.getElem?_setIfInBounds] at hb
   split at hb
@@ -321,7 +321,77 @@ theorem mkS_member (code : Code) (lim : Limits) (s : VMState) (fn : String) (ip 
     simp only [advance, push1, Nat.add_assoc, memOrg]
     rfl
 
-/-- `Call_Val` on the bound method `len` (no arguments): the length is pushed. -/
+/-- `Call_Val` on a bound method without arguments whose result is not `null`: the value is pushed. -/
+theorem mkS_callVal_meth0 (code : Code) (lim : Limits) (s : VMState) (fn : String) (ip : Nat)
+    (rest : List Frame) (mp : Int) (k : Nat) (stk : List SVal) (mem : List (Int × Val)) (out : World)
+    (c : List (RInstr × Span)) (hf : findCode code fn = some c) (sp : Span) (nm : String) (recv : Val)
+    (o1 o2 : Option Org) (n : Val)
+    (hx : c[ip]? = some (.callVal, sp))
+    (hr : callMember recv nm [] sp { s.st with heap := out.heap, out := out.out } =
+      (.ok n, { s.st with heap := out.heap, out := out.out })) (hn : n ≠ .null) :
+    exec1 code lim (mkS s (⟨fn, ip⟩ :: rest) mp k (⟨.int (I64.ofInt 0), o1⟩ :: ⟨.bound recv nm, o2⟩ :: stk) mem out) =
+      .next (mkS s (⟨fn, ip + 1⟩ :: rest) mp (k + 1) (⟨n, none⟩ :: stk) mem out) := by
+  have hfe := fetch_mkS code s fn ip rest mp k (⟨.int (I64.ofInt 0), o1⟩ :: ⟨.bound recv nm, o2⟩ :: stk) mem out c _ hf hx
+  unfold exec1
+  rw [hfe]
+  have h0 : (I64.ofInt 0).toNat = 0 := by decide
+  simp only [step, mkS, h0, popN, runM, hr]
+  cases n <;> first | exact absurd rfl hn | simp only [advance, push1, Nat.add_assoc]
+
+/-- `Call_Val` on a bound method without arguments that yields `null`: nothing is pushed. -/
+theorem mkS_callVal_meth0_null (code : Code) (lim : Limits) (s : VMState) (fn : String) (ip : Nat)
+    (rest : List Frame) (mp : Int) (k : Nat) (stk : List SVal) (mem : List (Int × Val)) (out : World)
+    (c : List (RInstr × Span)) (hf : findCode code fn = some c) (sp : Span) (nm : String) (recv : Val)
+    (o1 o2 : Option Org)
+    (hx : c[ip]? = some (.callVal, sp))
+    (hr : callMember recv nm [] sp { s.st with heap := out.heap, out := out.out } =
+      (.ok .null, { s.st with heap := out.heap, out := out.out })) :
+    exec1 code lim (mkS s (⟨fn, ip⟩ :: rest) mp k (⟨.int (I64.ofInt 0), o1⟩ :: ⟨.bound recv nm, o2⟩ :: stk) mem out) =
+      .next (mkS s (⟨fn, ip + 1⟩ :: rest) mp (k + 1) stk mem out) := by
+  have hfe := fetch_mkS code s fn ip rest mp k (⟨.int (I64.ofInt 0), o1⟩ :: ⟨.bound recv nm, o2⟩ :: stk) mem out c _ hf hx
+  unfold exec1
+  rw [hfe]
+  have h0 : (I64.ofInt 0).toNat = 0 := by decide
+  simp only [step, mkS, h0, popN, runM, hr, advance, Nat.add_assoc]
+
+/-- `Call_Val` on a bound method without arguments that throws: the (catchable) exception interrupt. -/
+theorem mkS_callVal_meth0_throw (code : Code) (lim : Limits) (s : VMState) (fn : String) (ip : Nat)
+    (rest : List Frame) (mp : Int) (k : Nat) (stk : List SVal) (mem : List (Int × Val)) (out : World)
+    (c : List (RInstr × Span)) (hf : findCode code fn = some c) (sp : Span) (nm : String) (recv : Val)
+    (o1 o2 : Option Org) (msg : String) (tsp : Span)
+    (hx : c[ip]? = some (.callVal, sp))
+    (hr : callMember recv nm [] sp { s.st with heap := out.heap, out := out.out } =
+      (.error (.throw msg tsp), { s.st with heap := out.heap, out := out.out })) :
+    exec1 code lim (mkS s (⟨fn, ip⟩ :: rest) mp k (⟨.int (I64.ofInt 0), o1⟩ :: ⟨.bound recv nm, o2⟩ :: stk) mem out) =
+      .intr (.throw msg tsp) (mkS s (⟨fn, ip⟩ :: rest) mp (k + 1) stk mem out) := by
+  have hfe := fetch_mkS code s fn ip rest mp k (⟨.int (I64.ofInt 0), o1⟩ :: ⟨.bound recv nm, o2⟩ :: stk) mem out c _ hf hx
+  unfold exec1
+  rw [hfe]
+  have h0 : (I64.ofInt 0).toNat = 0 := by decide
+  simp only [step, mkS, h0, popN, runM, hr, ctlToRes, Nat.add_assoc]
+
+/-- `Call_Val` on a bound method with one argument whose result is not `null`. -/
+theorem mkS_callVal_meth1 (code : Code) (lim : Limits) (s : VMState) (fn : String) (ip : Nat)
+    (rest : List Frame) (mp : Int) (k : Nat) (stk : List SVal) (mem : List (Int × Val)) (out : World)
+    (c : List (RInstr × Span)) (hf : findCode code fn = some c) (sp : Span) (nm : String) (recv a : Val)
+    (o1 o2 o3 : Option Org) (n : Val)
+    (hx : c[ip]? = some (.callVal, sp))
+    (hr : callMember recv nm [a] sp { s.st with heap := out.heap, out := out.out } =
+      (.ok n, { s.st with heap := out.heap, out := out.out })) (hn : n ≠ .null) :
+    exec1 code lim (mkS s (⟨fn, ip⟩ :: rest) mp k
+        (⟨.int (I64.ofInt 1), o1⟩ :: ⟨.bound recv nm, o2⟩ :: ⟨a, o3⟩ :: stk) mem out) =
+      .next (mkS s (⟨fn, ip + 1⟩ :: rest) mp (k + 1) (⟨n, none⟩ :: stk) mem out) := by
+  have hfe := fetch_mkS code s fn ip rest mp k
+    (⟨.int (I64.ofInt 1), o1⟩ :: ⟨.bound recv nm, o2⟩ :: ⟨a, o3⟩ :: stk) mem out c _ hf hx
+  unfold exec1
+  rw [hfe]
+  have h1' : (I64.ofInt 1).toNat = 1 := by decide
+  have h1 : (I64.ofInt 1).toNat = ([⟨a, o3⟩] : List SVal).length := h1'
+  simp only [step, mkS, h1]
+  rw [popN_append _ [⟨a, o3⟩] stk rfl]
+  simp only [List.map_cons, List.map_nil, runM, hr]
+  cases n <;> first | exact absurd rfl hn | simp only [advance, push1, Nat.add_assoc]
+
 theorem mkS_callVal_len (code : Code) (lim : Limits) (s : VMState) (fn : String) (ip : Nat)
     (rest : List Frame) (mp : Int) (k : Nat) (stk : List SVal) (mem : List (Int × Val)) (out : World)
     (c : List (RInstr × Span)) (hf : findCode code fn = some c) (sp : Span) (recv : Val) (o1 o2 : Option Org) (n : Val)
@@ -329,13 +399,8 @@ theorem mkS_callVal_len (code : Code) (lim : Limits) (s : VMState) (fn : String)
     (hr : callMember recv "len" [] sp { s.st with heap := out.heap, out := out.out } =
       (.ok n, { s.st with heap := out.heap, out := out.out })) (hn : n ≠ .null) :
     exec1 code lim (mkS s (⟨fn, ip⟩ :: rest) mp k (⟨.int (I64.ofInt 0), o1⟩ :: ⟨.bound recv "len", o2⟩ :: stk) mem out) =
-      .next (mkS s (⟨fn, ip + 1⟩ :: rest) mp (k + 1) (⟨n, none⟩ :: stk) mem out) := by
-  have hfe := fetch_mkS code s fn ip rest mp k (⟨.int (I64.ofInt 0), o1⟩ :: ⟨.bound recv "len", o2⟩ :: stk) mem out c _ hf hx
-  unfold exec1
-  rw [hfe]
-  have h0 : (I64.ofInt 0).toNat = 0 := by decide
-  simp only [step, mkS, h0, popN, runM, hr]
-  cases n <;> first | exact absurd rfl hn | simp only [advance, push1, Nat.add_assoc]
+      .next (mkS s (⟨fn, ip + 1⟩ :: rest) mp (k + 1) (⟨n, none⟩ :: stk) mem out) :=
+  mkS_callVal_meth0 code lim s fn ip rest mp k stk mem out c hf sp "len" recv o1 o2 n hx hr hn
 
 /-- `Call_Val` on the bound method `push` of a list: the element is appended, nothing is pushed. -/
 theorem mkS_callVal_push (code : Code) (lim : Limits) (s : VMState) (fn : String) (ip : Nat)
@@ -652,7 +717,7 @@ theorem HeapInv.assign {h h' : Array Cell} {org : Org} {v : Val} (e : assignHeap
         refine hi.set a _ (fun fs' hfs => ?_)
         cases hfs
         have := hi a fs hc
-        exact ⟨(lookup_setField_ne fs "len" name v).mpr this.1, (lookup_setField_ne fs "push" name v).mpr this.2⟩
+        exact fun k hk => (lookup_setField_ne fs k name v).mpr (this k hk)
       · cases e
         exact hi.set a _ (fun fs hfs => by cases hfs)
 
